@@ -130,6 +130,14 @@ impl<B> BlockCursor<B> {
     }
 }
 
+#[cfg(grenad_verif)]
+impl<B> BlockCursor<B> {
+    /// Verification hook: the byte offset of the pointed entry inside the block payload.
+    pub(crate) fn verif_current_offset(&self) -> Option<usize> {
+        self.current_offset
+    }
+}
+
 impl<B: Borrow<Block>> BlockCursor<B> {
     /// Returns the currently pointed key/value or `None` if the cursor hasn't been seeked yet.
     pub fn current(&self) -> Option<(&[u8], &[u8])> {
